@@ -92,10 +92,8 @@ Definition tick (d : Z) : M unit :=
   w <- get ;;
   match a_uri w with
   | Some u =>
-      when ps_eqb (a_state w) Playing do
-        (let p := a_pos w + d in
-         let p := match len_of w u with Some n => if n <? p then Z.max n (a_pos w) else p | None => p end in
-         modify (fun w => w <| a_pos := p |>))
+      (* Track.length is metadata: the stream may run past it *)
+      when ps_eqb (a_state w) Playing do modify (fun w => w <| a_pos := a_pos w + d |>)
   | None => ret tt
   end.
 
@@ -118,7 +116,11 @@ Definition do_load (cov : coverage) : M unit :=
 
 Definition run_op (o : op) : M retv :=
   match o with
-  | Add ts pos => l <- tl_add shuf ts pos ;; ret (RTlts l)
+  | Add ts pos =>
+      (* a negative track stands for an argument that is not a Track: rejected up front
+         (validation.check_instances) before anything is inserted *)
+      if existsb (fun t => t <? 0) ts then raise ValidationError else
+      l <- tl_add shuf ts pos ;; ret (RTlts l)
   | Clear => tl_clear shuf ;; ret RNone
   | Move s e p => tl_move shuf s e p ;; ret RNone
   | Remove c => l <- tl_remove shuf c ;; ret (RTlts l)
